@@ -4,6 +4,9 @@ import (
 	"bytes"
 	"fmt"
 	"io"
+	rs "verif/lib/ref/schema"
+	"verif/lib/schemagen"
+	"verif/lib/typedmon"
 
 	cid "github.com/ipfs/go-cid"
 	"github.com/ipld/go-ipld-prime/codec/dagcbor"
@@ -35,7 +38,7 @@ func (c11) ID() string { return "C11" }
 func (c11) Plan(tier string) fw.Plan {
 	p := fw.Plan{
 		Batches: 16, Cases: 1200, TimeoutSec: 900, Level: "exploration",
-		Rule: "one case = a set of tracked nodes from different producers (basicnode Any/Map/List/kind builders following random build programs, dag-cbor and dag-json decoders into reused builders, bindnode {String:Any}/[Any] bindings, blocks loaded through a LinkSystem (raw and dag-cbor), subset matches on strings/bytes/stream-backed bytes, focused-transform results), each snapshotted by a full read-out right after production, followed by a history of 12 later library operations (re-encode; Copy/AssignNode into other builders that are then extended; explore-all walk; focused transform of the node or of a tree containing it; subset matches read twice; Reset and reuse of the producing builder with similar size hints; further decodes into the same builder; further loads through the same link system; large-bytes readers consumed in different chunkings). After every step every tracked node is read out again and must equal its snapshot. Non-trivial: ≥3 tracked nodes of which one is a container with ≥2 children; distinct by hash of tracked values and step sequence.",
+		Rule:        "one case = a set of tracked nodes from different producers (basicnode Any/Map/List/kind builders following random build programs, dag-cbor and dag-json decoders into reused builders, bindnode {String:Any}/[Any] bindings, blocks loaded through a LinkSystem (raw and dag-cbor), subset matches on strings/bytes/stream-backed bytes, focused-transform results), each snapshotted by a full read-out right after production, followed by a history of 12 later library operations (re-encode; Copy/AssignNode into other builders that are then extended; explore-all walk; focused transform of the node or of a tree containing it; subset matches read twice; Reset and reuse of the producing builder with similar size hints; further decodes into the same builder; further loads through the same link system; large-bytes readers consumed in different chunkings). After every step every tracked node is read out again and must equal its snapshot. Non-trivial: ≥3 tracked nodes of which one is a container with ≥2 children; distinct by hash of tracked values and step sequence.",
 		Assumptions: []string{"the read-out monitor is the observer; the harness never writes into slices it passed in or got back (it keeps private copies and also checks the library left them alone)"},
 		MinEvents:   []string{"tracked_nodes", "history_steps", "rereads", "step:reset-reuse", "step:assign-extend", "step:transform", "step:subset", "step:load-more", "step:decode-again", "step:walk", "step:encode"},
 	}
@@ -53,6 +56,9 @@ type c11Tracked struct {
 	snap  model.Val
 	nb    datamodel.NodeBuilder // producing builder, if kept
 	proto datamodel.NodePrototype
+	opts  obs.Options
+	// rebuild, when set, assembles a fresh value the (typed) builder accepts
+	rebuild func(nb datamodel.NodeBuilder) error
 }
 
 var c11ExploreAll selector.Selector
@@ -81,13 +87,16 @@ func (c11) RunCase(c *fw.Ctx, rng *fw.RNG, batch, i int) {
 		}
 		return map[string]any{"tracked": ts, "steps": steps}
 	})
+	var trackOpts obs.Options
 	track := func(label string, n datamodel.Node, nb datamodel.NodeBuilder, proto datamodel.NodePrototype) *c11Tracked {
-		ro := obs.ReadOut(n, obs.Options{})
+		opts := trackOpts
+		trackOpts = obs.Options{}
+		ro := obs.ReadOut(n, opts)
 		c.Count("tracked_nodes", 1)
 		if len(ro.Issues) > 0 {
 			c.Deviate("C11:"+ro.Issues[0].Sig+":fresh:"+label, fmt.Sprintf("freshly produced node (%s): %s", label, ro.FirstIssue()))
 		}
-		t := &c11Tracked{label: label, n: n, snap: ro.Val, nb: nb, proto: proto}
+		t := &c11Tracked{label: label, n: n, snap: ro.Val, nb: nb, proto: proto, opts: opts}
 		tracked = append(tracked, t)
 		return t
 	}
@@ -105,7 +114,54 @@ func (c11) RunCase(c *fw.Ctx, rng *fw.RNG, batch, i int) {
 	nprod := 3 + rng.Intn(3)
 	for k := 0; k < nprod; k++ {
 		v := model.Gen(rng, c11Opts)
-		switch rng.Intn(8) {
+		switch rng.Intn(10) {
+		case 8, 9: // typed nodes: bindnode over a random type system (inferred or user-supplied Go types); builder kept
+			ts := schemagen.Gen(rng, schemagen.Opts{Types: 4 + rng.Intn(4)})
+			lib, err := schemagen.ToLibrary(ts)
+			if err != nil {
+				continue
+			}
+			eng := newBindEngine(lib)
+			if rng.Bool() {
+				eng = newShapedBindEngine(lib, ts, rng)
+			}
+			var cands []*rs.Type
+			for _, t := range ts.Types {
+				if t.Name[0] == 'T' {
+					cands = append(cands, t)
+				}
+			}
+			if len(cands) == 0 {
+				continue
+			}
+			t := cands[rng.Intn(len(cands))]
+			proto, _ := eng.Proto(t.Name)
+			if proto == nil {
+				continue
+			}
+			gr := rng.Fork()
+			rebuild := func(nb datamodel.NodeBuilder) (err error) {
+				defer func() {
+					if r := recover(); r != nil {
+						err = fmt.Errorf("panic: %v", r)
+					}
+				}()
+				tv := schemagen.GenValue(gr, ts, t, 0)
+				return typedmon.AssembleTyped(nb, ts, t, ts.TypeInput(t, tv))
+			}
+			nb := proto.NewBuilder()
+			if rebuild(nb) != nil {
+				continue
+			}
+			n := nb.Build()
+			c.Count("typed_nodes_tracked", 1)
+			trackOpts = obs.Options{Typed: true, NoWrongKindProbes: true}
+			tt := track("typed "+eng.Name()+" "+typeKindName(t), n, nb, proto)
+			tt.rebuild = rebuild
+			if _, rerr := ts.ReprOf(t, tt.snap); rerr == nil {
+				trackOpts = obs.Options{Typed: true, NoWrongKindProbes: true}
+				track("representation of typed "+eng.Name()+" "+typeKindName(t), typedmon.Repr(n), nil, nil)
+			}
 		case 0, 1: // basicnode builder kept for later reuse
 			protos := []datamodel.NodePrototype{basicnode.Prototype.Any}
 			if kp := kindProto(v); kp != nil {
@@ -214,7 +270,7 @@ func (c11) RunCase(c *fw.Ctx, rng *fw.RNG, batch, i int) {
 	// ---- history
 	recheck := func(after string) {
 		for _, t := range tracked {
-			ro := obs.ReadOut(t.n, obs.Options{})
+			ro := obs.ReadOut(t.n, t.opts)
 			c.Count("rereads", 1)
 			if !model.Equal(ro.Val, t.snap) {
 				c.Deviate("C11:node-changed:"+sanitizeSig(after)+":"+sanitizeSig(t.label), fmt.Sprintf("node produced by %q read %s right after production and %s after step %q", t.label, t.snap.Dump(), ro.Val.Dump(), after))
@@ -278,7 +334,15 @@ func (c11) RunCase(c *fw.Ctx, rng *fw.RNG, batch, i int) {
 						}
 					}
 				}
-				if t.nb != nil {
+				if t.nb != nil && t.rebuild != nil {
+					t.nb.Reset()
+					if t.rebuild(t.nb) == nil {
+						trackOpts = t.opts
+						nt := track(t.label+" (builder reused after Reset)", t.nb.Build(), t.nb, t.proto)
+						nt.rebuild = t.rebuild
+					}
+					t.nb = nil
+				} else if t.nb != nil {
 					t.nb.Reset()
 					nv := c11Similar(rng, t.snap)
 					prog := &build.Prog{R: rng.Fork()}
@@ -521,7 +585,9 @@ func c11AssignExtend(rng *fw.RNG, t *c11Tracked) {
 
 func c11Transform(rng *fw.RNG, t *c11Tracked) {
 	n := t.n
-	repl := func(traversal.Progress, datamodel.Node) (datamodel.Node, error) { return basicnode.NewString("replaced"), nil }
+	repl := func(traversal.Progress, datamodel.Node) (datamodel.Node, error) {
+		return basicnode.NewString("replaced"), nil
+	}
 	switch n.Kind() {
 	case datamodel.Kind_Map:
 		it := n.MapIterator()
